@@ -23,6 +23,37 @@ func ruleMARKERFREE(c *Ctx) {
 		}
 		found, ok := false, false
 		var pos token.Pos = f.Pos()
+		// the counter whose value is appended to RuleLen
+		ruleLenCounters := map[*ssa.Phi]bool{}
+		if s.what == "RuleLen" {
+			for _, b := range f.Blocks {
+				for _, ins := range b.Instrs {
+					call, isCall := ins.(*ssa.Call)
+					if !isCall {
+						continue
+					}
+					bi, isB := call.Common().Value.(*ssa.Builtin)
+					if !isB || bi.Name() != "append" || !strings.HasSuffix(vpath(call.Common().Args[0]), ".RuleLen") {
+						continue
+					}
+					if sl, ok := call.Common().Args[1].(*ssa.Slice); ok {
+						if al, ok := sl.X.(*ssa.Alloc); ok && al.Referrers() != nil {
+							for _, r := range *al.Referrers() {
+								if ia, ok := r.(*ssa.IndexAddr); ok && ia.Referrers() != nil {
+									for _, r2 := range *ia.Referrers() {
+										if st, ok := r2.(*ssa.Store); ok {
+											if ph, ok := st.Val.(*ssa.Phi); ok {
+												ruleLenCounters[ph] = true
+											}
+										}
+									}
+								}
+							}
+						}
+					}
+				}
+			}
+		}
 		for _, b := range f.Blocks {
 			for _, ins := range b.Instrs {
 				var inc ssa.Value
@@ -35,7 +66,7 @@ func ruleMARKERFREE(c *Ctx) {
 				case *ssa.BinOp:
 					// RuleLen: the counter `len` (a phi named len) incremented by one
 					if s.what == "RuleLen" && x.Op == token.ADD && vpath(x.Y) == "1" {
-						if ph, isPhi := x.X.(*ssa.Phi); isPhi && ph.Comment == "len" {
+						if ph, isPhi := x.X.(*ssa.Phi); isPhi && ruleLenCounters[ph] {
 							inc = x
 							pos = x.Pos()
 						}
